@@ -1,5 +1,10 @@
 pub mod c05;
+pub mod c10;
+pub mod c12;
+pub mod c13;
+pub mod c14;
 pub mod c15;
+pub mod cfcase;
 pub mod c16;
 
 use crate::engine::*;
@@ -8,6 +13,10 @@ use std::path::Path;
 pub fn run(ctx: &Ctx) -> i32 {
     match ctx.id.as_str() {
         "C05" => c05::run(ctx),
+        "C10" => c10::run(ctx),
+        "C12" => c12::run(ctx),
+        "C13" => c13::run(ctx),
+        "C14" => c14::run(ctx),
         "C15" => c15::run(ctx),
         "C16" => c16::run(ctx),
         other => {
@@ -38,6 +47,10 @@ pub fn replay(ctx: &Ctx, path: &Path) -> i32 {
     let tape = unhex(v["tape_hex"].as_str().unwrap_or(""));
     let r = match ctx.id.as_str() {
         "C05" => c05::replay(ctx, &check, &tape),
+        "C10" => c10::replay(ctx, &check, &tape),
+        "C12" => c12::replay(ctx, &check, &tape),
+        "C13" => c13::replay(ctx, &check, &tape),
+        "C14" => c14::replay(ctx, &check, &tape),
         "C15" => c15::replay(ctx, &check, &tape),
         "C16" => c16::replay(ctx, &check, &tape),
         other => {
